@@ -372,7 +372,7 @@ def gen_cases(run: Run):
     rng = run.rng
     cases = list(corpus())
     # (1) the complete ordered type-pair matrix, singletons, all operators, both families, all modes
-    reps = run.scale(1, 6)
+    reps = run.scale(2, 8)
     for m in MODES:
         for ta, tb in iproduct(TYPES, TYPES):
             for op in OPS:
@@ -382,7 +382,7 @@ def gen_cases(run: Run):
                     for _ in range(reps):
                         cases.append({'k': k, 'm': m, 'op': op, 'l': [rand_item(rng, ta)], 'r': [rand_item(rng, tb)]})
     # (2) same-class pairs with values drawn to collide / be close (order properties, tolerance)
-    for _ in range(run.scale(2500, 40000)):
+    for _ in range(run.scale(5000, 60000)):
         grp = rng.choice([['i', 'd'], ['f'], ['g'], ['f', 'g'], ['i', 'd', 'f', 'g'], ['s', 'u', 'a'], ['u'], ['b'],
                           ['D'], ['T'], ['t'], ['D', 'T', 't'], ['P', 'Y', 'S'], ['Y'], ['S'], ['x', 'y'], ['q'],
                           ['u', 'i', 'd', 'f', 'g'], ['u', 'b'], ['u', 'x', 'y', 'q', 'a']])
@@ -391,7 +391,7 @@ def gen_cases(run: Run):
         cases.append({'k': k, 'm': m, 'op': rng.choice(OPS), 'l': [rand_item(rng, rng.choice(grp))],
                       'r': [rand_item(rng, rng.choice(grp))]})
     # (2b) pairs of doubles / floats at relative distances around the isclose tolerance (1e-7)
-    for _ in range(run.scale(1200, 20000)):
+    for _ in range(run.scale(2500, 30000)):
         base = rng.choice([1.0, 3.0, 1e10, 1e-5, 123.456, -7.25, 2.0 ** 60, 1e-300, 1e300, 0.1, -1e-7])
         delta = rng.choice([1, -1]) * rng.choice([0, 1e-9, 3e-8, 9e-8, 9.9e-8, 9.99e-8, 1e-7, 1.0000001e-7, 1.001e-7,
                                                   1.01e-7, 1.1e-7, 2e-7, 5e-7, 9e-7, 1e-6, 1.1e-6, 1e-5, 1e-3])
@@ -406,7 +406,7 @@ def gen_cases(run: Run):
         m = rng.choice(['v2c', 'v2', 'v31'])
         cases.append({'k': rng.choice(['V', 'V', 'G']), 'm': m, 'op': rng.choice(OPS), 'l': [a], 'r': [b]})
     # (3) sequences of length 0..3 (atoms of any type, element nodes)
-    for _ in range(run.scale(7000, 120000)):
+    for _ in range(run.scale(15000, 200000)):
         m = rng.choice(MODES)
         k = 'G' if (m == 'v1' or rng.random() < 0.75) else 'V'
         types = rng.choice([None, None, ['i', 'd', 'f', 'g', 'u'], ['s', 'u', 'a'], ['u', 'b', 'i'], ['f'], ['s', 'f', 'b', 'i']])
@@ -439,10 +439,10 @@ def gen_cases(run: Run):
                 continue
             for s in shapes:
                 cases.append({'k': 'B', 'm': m, 'f': f, 'l': s})
-            for _ in range(run.scale(150, 3000)):
+            for _ in range(run.scale(300, 3000)):
                 cases.append({'k': 'B', 'm': m, 'f': f, 'l': rand_seq(rng, 3, 0.3)})
         for f in ('and', 'or'):
-            for _ in range(run.scale(500, 8000)):
+            for _ in range(run.scale(1000, 10000)):
                 cases.append({'k': 'L', 'm': m, 'f': f, 'l': rand_seq(rng, 2, 0.2, ['b', 'i', 's', 'f', 'q', 'u', 'd']),
                               'r': rand_seq(rng, 2, 0.2, ['b', 'i', 's', 'f', 'q', 'u', 'd'])})
     return cases
@@ -620,6 +620,56 @@ def shrink(d: Disagreement) -> Disagreement:
     return best_d
 
 
+# ------------------------------------------------------------------------ translator
+REP_ITEMS = [('i', 1), ('d', '1.5'), ('f', 2.0), ('g', 2.0), ('s', 'a'), ('u', 'a'), ('b', True), ('a', 'a'),
+             ('q', '', '', 'a'), ('D', (2000, 1, 1)), ('T', (2000, 1, 1, 0, 0, 0)), ('t', (0, 0, 0)), ('P', 1, 1),
+             ('Y', 1), ('S', 1), ('x', (65,)), ('y', (65,))]
+REP_LEAN = ['.int 1', '.dec (3 / 2)', '.dbl (.fin 2)', '.flt (.fin 2)', '.str [97]', '.ua [97]', '.bool true',
+            '.uri [97]', '.qn [] [] [97]', '.date 5', '.dtm 5', '.time 5', '.dur 1 1', '.ymd 1', '.dtd 1',
+            '.hex [65]', '.b64 [65]']
+
+
+def translate_tables(run: Run) -> dict:
+    """isinstance / class-identity / subclass matrices of the live datatype classes, for one
+    representative object per atomic type, against the classes named in the dispatch chains of
+    iter_comparison_data and evaluate__value_comparison_operators -> lean/EPV/Gen/C07Tables.lean"""
+    import decimal
+    from elementpath import datatypes as dt
+    from elementpath.datatypes import AnyAtomicType
+    from harness.common import LEAN
+    _, vals = build_values({'k': 'B', 'm': 'v2', 'f': 'boolean', 'l': list(REP_ITEMS)})
+    objs = vals['a']
+    classes = [('str', str), ('UntypedAtomic', dt.UntypedAtomic), ('AnyURI', dt.AnyURI), ('bool', bool),
+               ('Integer', dt.Integer), ('AbstractQName', dt.AbstractQName), ('float', float),
+               ('Decimal', decimal.Decimal), ('DoubleProxy10', dt.DoubleProxy10), ('int', int),
+               ('Duration', dt.Duration), ('AbstractDateTime', dt.AbstractDateTime),
+               ('AbstractBinary', dt.AbstractBinary), ('Float', dt.Float), ('AnyAtomicType', AnyAtomicType)]
+
+    def b(x):
+        return 'true' if x else 'false'
+    out = ['/- GENERATED by harness/c07.py::translate_tables from the live /repo -- do not edit -/',
+           'import EPV.Model.Compare', 'namespace EPV.Gen.C07', 'open EPV.Cmp', '',
+           'def reps : List Atom := [' + ', '.join(REP_LEAN) + ']', '',
+           '/-- `isinstance(rep_i, C)` for every representative (rows) and dispatch class (columns: ' +
+           ', '.join(n for n, _ in classes) + ') -/',
+           'def isinstanceTable : List (List Bool) := [' +
+           ', '.join('[' + ', '.join(b(isinstance(o, c)) for _, c in classes) + ']' for o in objs) + ']', '',
+           '/-- `type(rep_i) is type(rep_j)` -/',
+           'def sameClassTable : List (List Bool) := [' +
+           ', '.join('[' + ', '.join(b(type(x) is type(y)) for y in objs) + ']' for x in objs) + ']', '',
+           '/-- `type(rep_j)` is a proper subclass of `type(rep_i)` -/',
+           'def properSubclassTable : List (List Bool) := [' +
+           ', '.join('[' + ', '.join(b(type(x) is not type(y) and issubclass(type(y), type(x))) for y in objs) + ']'
+                     for x in objs) + ']',
+           'end EPV.Gen.C07']
+    gen = LEAN / 'EPV' / 'Gen' / 'C07Tables.lean'
+    gen.parent.mkdir(exist_ok=True)
+    text = '\n'.join(out) + '\n'
+    if not gen.exists() or gen.read_text() != text:
+        gen.write_text(text)
+    return {'representatives': len(objs), 'dispatch_classes': [n for n, _ in classes]}
+
+
 def body(run: Run) -> int:
     run.trusted_base += [
         'CPython float = IEEE-754 binary64, math.isclose, decimal.Decimal and str comparison semantics (modelled in '
@@ -632,7 +682,10 @@ def body(run: Run) -> int:
         'dates/times have no timezone and years 1..9999 (instant order; timezone arithmetic is C11)',
         'durations have whole seconds; xs:float values are binary32-representable',
         'default collation = Unicode codepoint collation']
-    run.prove(['EPV.Props.C07'], ['EPV.Spec.FOCompare', 'EPV.Lemmas.CompareFindings'])
+    run.stats.extra['tables'] = translate_tables(run)
+    run.trusted_base.append('translator harness/c07.py::translate_tables (isinstance / class matrices of the live '
+                            'datatype classes printed as Lean literals)')
+    run.prove(['EPV.Props.C07', 'EPV.Props.C07Tables'], ['EPV.Spec.FOCompare', 'EPV.Lemmas.CompareFindings'])
     try:
         if getattr(run, 'replay', None):
             import json
@@ -649,4 +702,4 @@ def body(run: Run) -> int:
 
 
 if __name__ == '__main__':
-    cli(PROP, body)
+    cli(PROP, body, translate=translate_tables)
